@@ -6,7 +6,7 @@ ASTs) is answered by the real database through count/search/contains/get/select
 (db and handle, with/without measurement filter) and compared with the model,
 in all four configurations {CSV, memory} x {auto_index on, off}.
 """
-from .. import contracts, cover, qast
+from .. import gen, contracts, cover, qast
 from ..common import Scratch, rng_for
 from ..core import Violation
 from ..histories import HistoryRunner, Profile, describe, replay_of, replay_ops
@@ -63,6 +63,8 @@ def profile(h=0):
         p.meas = ["m0", "m1", "_default", "m", "m00", "M0", "m0 ", "a", "a/b", "None", "k", "x", "1", "measurement", "m1x"]
         p.extra_tag_keys = [f"key{i}" for i in range(14)]
         p.extra_tag_vals = [f"v{i}" for i in range(25)] + ["12", "1.5", "x" * 300]
+    if h % 20 == 17:  # instants at and around the epoch (timestamp 0.0, negative timestamps) and year 1900
+        p.grid = gen.EPOCH_GRID
     if h % 8 == 5:  # a stratum of bigger databases (thresholds above a dozen rows)
         p.max_rows = 45
         p.max_time_probes = 40
